@@ -19,6 +19,12 @@ func init() {
 
 const ksT = "proto/kardiachain/state."
 
+var c14Codecs = []codecSpec{
+	{Name: "ValidatorSet", Dom: "types.ValidatorSet", Proto: kp + "ValidatorSet", Enc: "(*types.ValidatorSet).ToProto", Dec: "types.ValidatorSetFromProto", Validates: `ValidateBasic\(`},
+	{Name: "Validator", Dom: "types.Validator", Proto: kp + "Validator", Enc: "(*types.Validator).ToProto", Dec: "types.ValidatorFromProto",
+		DomSkip: map[string]string{"Name": "staking display field, not consensus state", "StakedAmount": "staking display field", "CommissionRate": "staking display field", "MaxRate": "staking display field", "MaxChangeRate": "staking display field", "Delegators": "staking display field", "SmcAddress": "staking display field", "Role": "staking display field", "Status": "staking display field", "Jailed": "staking display field", "DelegationShares": "staking display field", "AccumulatedCommission": "staking display field", "UpdateTime": "staking display field", "MissedBlocks": "staking display field", "SigningInfo": "staking display field"}},
+}
+
 func runC14(c *Ctx) {
 	c.Decided = []string{
 		"every field of the consensus state is assigned by the loader from a record the saver (or the block store) writes; the three validator sets are loaded from the records named by the like-named hash fields and saved/identified from the like-named sets (no cross-wiring)",
@@ -230,9 +236,9 @@ func runC14(c *Ctx) {
 		c.Guarded(fn, "decode the set", CallTo(`^types\.ValidatorSetFromProto$`, ""), G("validators record exists", NotNil(`^call:kai/rawdb\.ReadConsensusValidatorsInfo\(`)))
 	}
 	// ---- codecs ---------------------------------------------------------------------------------------------
-	c.codecPair(codecSpec{Name: "ValidatorSet", Dom: "types.ValidatorSet", Proto: kp + "ValidatorSet", Enc: "(*types.ValidatorSet).ToProto", Dec: "types.ValidatorSetFromProto", Validates: `ValidateBasic\(`})
-	c.codecPair(codecSpec{Name: "Validator", Dom: "types.Validator", Proto: kp + "Validator", Enc: "(*types.Validator).ToProto", Dec: "types.ValidatorFromProto",
-		DomSkip: map[string]string{"Name": "staking display field, not consensus state", "StakedAmount": "staking display field", "CommissionRate": "staking display field", "MaxRate": "staking display field", "MaxChangeRate": "staking display field", "Delegators": "staking display field", "SmcAddress": "staking display field", "Role": "staking display field", "Status": "staking display field", "Jailed": "staking display field", "DelegationShares": "staking display field", "AccumulatedCommission": "staking display field", "UpdateTime": "staking display field", "MissedBlocks": "staking display field", "SigningInfo": "staking display field"}})
+	for _, sp := range c14Codecs {
+		c.codecPair(sp)
+	}
 	if fn := c.Fn("types", "ValidatorSet", "Copy"); fn != nil {
 		got := map[string]bool{}
 		for _, in := range findInstrs(fn, StoreTo(`^&alloc:complit:types\.ValidatorSet\.`)) {
